@@ -102,8 +102,11 @@ package validators
 // repeats, and an alias is one of the route's {names}
 //@ spec pathAt(v AnnotationLinkValidator, k int) annotations.Attribute = v.groupedAttributes.path[k]
 //@ spec hasAlias(a annotations.Attribute) bool = aliasOK(a) && aliasSet(a) && aliasVal(a) != ""
-// assumed: the suggestion text builder has no effect
-//@ func getContextualAppendedSuggestion trusted
+// the suggestion text builder: its own statements (set operations over the modelled set type) are checked for safety
+// and write nothing of the caller's; the did-you-mean ranking it calls (common/language.DidYouMean) has no contract
+// and is listed as an unchecked call in the evidence
+//@ func getContextualAppendedSuggestion props C14
+//@ ensures true
 //@ extern github.com/gopher-fleece/gleece/v2/common.MapKeys
 //@ ensures true
 //@ func AnnotationLinkValidator.validatePathAnnotations props C10,C14,C18
